@@ -84,3 +84,254 @@ theorem unexpected_term_run (o : Opts) {path : Path} {put : Container → Cif} {
   simpa [denoteItems_append] using this
 
 end CifModel.Model.Parser
+
+namespace CifModel.Model.Parser
+open CifModel CifModel.Model CifModel.Model.Lexer CifModel.Spec.Grammar CifModel.Spec.Lexical
+open CifModel.Gen.ErrCodes
+
+/-! ## part 2 — a scalar item whose VALUE carries the defect
+
+  `DV` = the tokens of the defective value, `vd` = the value the documented recovery makes of it, `C` = the code; `hval` = what
+  parse_value does on it (one report).  The item is stored with the recovered value. -/
+
+theorem item_defect_step (o : Opts) {path : Path} {put : Container → Cif} {code : Str} (hv : View o path put code)
+    (n : Str) (hty : TokType) (htx : Str) (DV : List TokSpec) (vd : V) (C : Code) (next : List TokSpec) (s : PS) (fuel : Nat) (w : W)
+    (fs : List Container) (ls : List Loop) (isBlock : Bool)
+    (hcif : w.cif = put (.mk code fs ls)) (hname : wfName n = true) (hfresh : o.norm n ∉ normNames o ls)
+    (hstart : isValueStart hty = true) (hkey : isKeyTok hty = false)
+    (hval : ∀ (s1 : PS) (w1 : W), Feeds o s1 ((hty, htx) :: DV ++ next) →
+      ∃ s2 r, parseValue o fuel s1 acceptAll w1 = .ok (vd, s2) { w1 with log := r :: w1.log } ∧ r.code = C ∧ Feeds o s2 next)
+    (hF : Feeds o s ((.name, n) :: ((hty, htx) :: DV ++ next))) :
+    ∃ s' r, elemsLoop o (fuel + 1) s (some path) isBlock acceptAll w
+        = elemsLoop o fuel s' (some path) isBlock acceptAll { log := r :: w.log, cif := put (.mk code fs (putScalar ls n vd)) }
+      ∧ r.code = C ∧ Feeds o s' next := by
+  simp only [wfName, Bool.and_eq_true] at hname
+  obtain ⟨t, s1, hty1, htx1, hn, _, hr⟩ := hF.inv
+  have hr' := hr
+  simp only [List.cons_append] at hr'
+  obtain ⟨t2, s2, hty2, htx2, hn2, ht2, hr2⟩ := hr'.inv
+  have hpend : Feeds o s2 ((hty, htx) :: DV ++ next) := by
+    simp only [List.cons_append]
+    rw [← hty2, ← htx2]; exact Feeds.pending ht2 hr2
+  obtain ⟨s3, r, h1, hc, h2⟩ := hval s2 w hpend
+  refine ⟨s3, r, ?_, hc, h2⟩
+  conv => lhs; rw [elemsLoop]
+  simp only [bind_eq, pure_eq, P.bind, P.pure, hn, hty1, htx1, cstr_noNul hname.2,
+    itemExists_false o hv n fs ls acceptAll w hcif hname.1 hfresh, Bool.false_eq_true, if_false, hname.1, Bool.not_true, and_false]
+  unfold parseItem
+  simp only [bind_eq, pure_eq, P.bind, P.pure, hn2, hty2, hkey, hstart, if_true, Bool.false_eq_true, if_false, h1]
+  rw [setValue_new o hv n vd fs ls acceptAll ⟨r :: w.log, w.cif⟩ hcif hname.1 hfresh]
+
+/-- the item with the defective value inside any well-formed runs -/
+theorem item_defect_run (o : Opts) {path : Path} {put : Container → Cif} {code : Str} (hv : View o path put code)
+    (pre post : List Item) (n : Str) (hty : TokType) (htx : Str) (DV : List TokSpec) (vd : V) (C : Code) (need : Nat)
+    (seen seen2 : List Str) (rest : List TokSpec) (s : PS) (fuel : Nat) (w : W)
+    (fs : List Container) (ls : List Loop) (isBlock : Bool) (hcif : w.cif = put (.mk code fs ls))
+    (hpre : wfItems o pre seen = true) (hseen : ∀ k ∈ normNames o ls, k ∈ seen)
+    (hname : wfName n = true) (hfresh : o.norm n ∉ normNames o (denoteItems o.dia o.normKey pre ls))
+    (hstart : isValueStart hty = true) (hkey : isKeyTok hty = false)
+    (hval : ∀ (f : Nat) (s1 : PS) (w1 : W), need ≤ f → Feeds o s1 ((hty, htx) :: DV ++ (itemsToks post ++ rest)) →
+      ∃ s2 r, parseValue o f s1 acceptAll w1 = .ok (vd, s2) { w1 with log := r :: w1.log } ∧ r.code = C
+        ∧ Feeds o s2 (itemsToks post ++ rest))
+    (hpost : wfItems o post seen2 = true)
+    (hseen2 : ∀ k ∈ normNames o (putScalar (denoteItems o.dia o.normKey pre ls) n vd), k ∈ seen2)
+    (hfuel : szItems pre + szItems post + need + 1 ≤ fuel)
+    (hrest : lastIsLoop post = true → ∃ ty tx ts, rest = (ty, tx) :: ts ∧ isTerminator ty = true)
+    (hF : Feeds o s (itemsToks pre ++ (((.name, n) :: (hty, htx) :: DV) ++ (itemsToks post ++ rest)))) :
+    ∃ s' r, elemsLoop o (fuel + post.length + 1 + pre.length) s (some path) isBlock acceptAll w
+        = elemsLoop o fuel s' (some path) isBlock acceptAll
+            { log := r :: w.log,
+              cif := put (.mk code fs (denoteItems o.dia o.normKey post (putScalar (denoteItems o.dia o.normKey pre ls) n vd))) }
+      ∧ r.code = C ∧ Feeds o s' rest :=
+  defect_run o hv pre post ((.name, n) :: (hty, htx) :: DV) (fun l => putScalar l n vd) C need seen seen2 rest s fuel w fs ls isBlock
+    hcif hpre hseen hpost hseen2
+    (by
+      intro s1 w1 f hc hf hF1
+      simp only [List.cons_append, List.append_assoc] at hF1
+      exact item_defect_step o hv n hty htx DV vd C _ s1 f w1 fs _ isBlock hc hname hfresh hstart hkey
+        (fun s2 w2 h => hval f s2 w2 hf (by simpa [List.append_assoc] using h))
+        (by simpa [List.append_assoc] using hF1))
+    hfuel (fun _ => ⟨_, _, _, rfl, rfl⟩) hrest hF
+
+end CifModel.Model.Parser
+
+namespace CifModel.Model.Parser
+open CifModel CifModel.Model CifModel.Model.Lexer CifModel.Spec.Grammar CifModel.Spec.Lexical
+open CifModel.Gen.ErrCodes
+
+/-! ### unterminated list / table (CIF_MISSING_DELIM): the elements read so far make the value -/
+
+/-- the elements of a list up to a token that ends the list WITHOUT closing it -/
+theorem values_open (o : Opts) : ∀ (vs : List Val) (ty : TokType) (tx : Str) (ts : List TokSpec) (s : PS) (fuel : Nat) (w : W)
+    (acc : List V), wfVals o vs = true → szVals vs + 1 ≤ fuel → isTerminator ty = true →
+    Feeds o s (valsToks vs ++ (ty, tx) :: ts) →
+    ∃ s' r, listLoop o fuel s acc acceptAll w = .ok (acc ++ denoteVals o.dia o.normKey vs, s') { w with log := r :: w.log }
+      ∧ r.code = CIF_MISSING_DELIM ∧ Feeds o s' ((ty, tx) :: ts)
+  | [], ty, tx, ts, s, fuel, w, acc, _, hf, hterm, hF => by
+    obtain ⟨f, rfl⟩ : ∃ f, fuel = f + 1 := ⟨fuel - 1, by omega⟩
+    simp only [valsToks, List.nil_append] at hF
+    obtain ⟨t, s', hty, htx, hn, ht, hr⟩ := hF.inv
+    simp only [isTerminator, Bool.not_eq_true', Bool.or_eq_false_iff, beq_eq_false_iff_ne, ne_eq] at hterm
+    refine ⟨s', ⟨CIF_MISSING_DELIM, s'.scan.line, s'.scan.col - t.text.length⟩, ?_, rfl,
+      by rw [← hty, ← htx]; exact Feeds.pending ht hr⟩
+    rw [listLoop]
+    simp only [bind_eq, pure_eq, P.bind, P.pure, hn, hty, hterm.1.1.1, hterm.1.1.2, hterm.1.2, Bool.false_eq_true, if_false,
+      report_accept, denoteVals, List.append_nil]
+  | v :: vs, ty, tx, ts, s, fuel, w, acc, hw, hf, hterm, hF => by
+    obtain ⟨f, rfl⟩ : ∃ f, fuel = f + 1 := ⟨fuel - 1, by omega⟩
+    simp only [wfVals, Bool.and_eq_true] at hw
+    simp only [szVals] at hf
+    have hp := szVal_pos v
+    obtain ⟨vty, vtx, vts, hvt, hstart, hkey⟩ := valToks_head v
+    simp only [valsToks, List.append_assoc] at hF
+    have hF' := hF
+    rw [hvt, List.cons_append] at hF'
+    obtain ⟨t, s', hty, htx, hn, ht, hr⟩ := hF'.inv
+    have hpend : Feeds o s' (valToks v ++ (valsToks vs ++ (ty, tx) :: ts)) := by
+      rw [hvt, List.cons_append, ← hty, ← htx]; exact Feeds.pending ht hr
+    obtain ⟨s1, h1, h2⟩ := value_structure o v _ s' f acceptAll w hw.1 (by omega) hpend
+    obtain ⟨s2, r, h3, hc, h4⟩ := values_open o vs ty tx ts s1 f w (acc ++ [denoteVal o.dia o.normKey v]) hw.2 (by omega) hterm h2
+    refine ⟨s2, r, ?_, hc, h4⟩
+    rw [listLoop]
+    simp only [bind_eq, pure_eq, P.bind, P.pure, hn, hty, hkey, hstart, if_true, h1, h3, denoteVals,
+      List.append_assoc, List.singleton_append, Bool.false_eq_true, if_false]
+
+/-- the entries of a table up to a token that ends the table WITHOUT closing it -/
+theorem entries_open (o : Opts) : ∀ (es : List (Str × Presentation × Val)) (ty : TokType) (tx : Str) (ts : List TokSpec) (s : PS)
+    (fuel : Nat) (w : W) (acc : List (Str × Str × V)), wfEntries o es = true → szEntries es + 1 ≤ fuel → isTerminator ty = true →
+    Feeds o s (entriesToks es ++ (ty, tx) :: ts) →
+    ∃ s' r, tableLoop o fuel s acc acceptAll w = .ok (denoteEntries o.dia o.normKey es acc, s') { w with log := r :: w.log }
+      ∧ r.code = CIF_MISSING_DELIM ∧ Feeds o s' ((ty, tx) :: ts)
+  | [], ty, tx, ts, s, fuel, w, acc, _, hf, hterm, hF => by
+    obtain ⟨f, rfl⟩ : ∃ f, fuel = f + 1 := ⟨fuel - 1, by omega⟩
+    simp only [entriesToks, List.nil_append] at hF
+    obtain ⟨t, s', hty, htx, hn, ht, hr⟩ := hF.inv
+    refine ⟨s', ⟨CIF_MISSING_DELIM, s'.scan.line, s'.scan.col - t.text.length⟩, ?_, rfl,
+      by rw [← hty, ← htx]; exact Feeds.pending ht hr⟩
+    rw [tableLoop]
+    cases ty <;> simp [isTerminator, isKeyTok, isValueStart] at hterm <;>
+      simp only [bind_eq, pure_eq, P.bind, P.pure, hn, hty, report_accept, denoteEntries]
+  | (k, kp, v) :: es, ty, tx, ts, s, fuel, w, acc, hw, hf, hterm, hF => by
+    obtain ⟨f, rfl⟩ : ∃ f, fuel = f + 1 := ⟨fuel - 1, by omega⟩
+    simp only [wfEntries, Bool.and_eq_true, Bool.not_eq_true'] at hw
+    simp only [szEntries] at hf
+    have hp := szVal_pos v
+    obtain ⟨g, rfl⟩ : ∃ g, f = g + 1 := ⟨f - 1, by omega⟩
+    simp only [entriesToks, List.cons_append, List.append_assoc] at hF
+    obtain ⟨t, s', hty, htx, hn, _, hr⟩ := hF.inv
+    obtain ⟨vty, vtx, vts, hvt, hstart, _⟩ := valToks_head v
+    have hr' := hr
+    rw [hvt, List.cons_append] at hr'
+    obtain ⟨t2, s2, hty2, htx2, hn2, ht2, hr2⟩ := hr'.inv
+    have hpend : Feeds o s2 (valToks v ++ (entriesToks es ++ (ty, tx) :: ts)) := by
+      rw [hvt, List.cons_append, ← hty2, ← htx2]; exact Feeds.pending ht2 hr2
+    obtain ⟨s3, h1, h2⟩ := value_structure o v _ s2 g acceptAll w hw.1.2 (by omega) hpend
+    obtain ⟨s4, r, h3, hc, h4⟩ := entries_open o es ty tx ts s3 g w (putEntry o.normKey acc k (denoteVal o.dia o.normKey v)) hw.2
+      (by omega) hterm h2
+    refine ⟨s4, r, ?_, hc, h4⟩
+    rw [tableLoop]
+    simp only [bind_eq, pure_eq, P.bind, P.pure, hn, hty, htx, cstr_noNul hw.1.1.1]
+    rw [tableEntry]
+    simp only [bind_eq, pure_eq, P.bind, P.pure, hw.1.1.2, Bool.false_eq_true, if_false, hn2, hty2, hstart, if_true, h1,
+      tableSet_eq_putEntry, h3, denoteEntries]
+
+/-- parse_value on an unterminated list -/
+theorem open_list_value (o : Opts) (vs : List Val) (btx : Str) (ty : TokType) (tx : Str) (ts : List TokSpec) (s : PS) (fuel : Nat) (w : W)
+    (hw : wfVals o vs = true) (hf : szVals vs + 2 ≤ fuel) (hterm : isTerminator ty = true)
+    (hF : Feeds o s ((.olist, btx) :: valsToks vs ++ (ty, tx) :: ts)) :
+    ∃ s' r, parseValue o fuel s acceptAll w = .ok (.lst (denoteVals o.dia o.normKey vs), s') { w with log := r :: w.log }
+      ∧ r.code = CIF_MISSING_DELIM ∧ Feeds o s' ((ty, tx) :: ts) := by
+  obtain ⟨f, rfl⟩ : ∃ f, fuel = f + 1 := ⟨fuel - 1, by omega⟩
+  simp only [List.cons_append] at hF
+  obtain ⟨t, s1, hty, _, hn, _, hr⟩ := hF.inv
+  obtain ⟨s2, r, h1, hc, h2⟩ := values_open o vs ty tx ts (consume s1) f w [] hw (by omega) hterm hr
+  refine ⟨s2, r, ?_, hc, h2⟩
+  rw [parseValue]
+  simp only [bind_eq, pure_eq, P.bind, P.pure, hn, hty, h1, List.nil_append]
+
+/-- parse_value on an unterminated table -/
+theorem open_table_value (o : Opts) (es : List (Str × Presentation × Val)) (btx : Str) (ty : TokType) (tx : Str) (ts : List TokSpec)
+    (s : PS) (fuel : Nat) (w : W) (hw : wfEntries o es = true) (hf : szEntries es + 2 ≤ fuel) (hterm : isTerminator ty = true)
+    (hF : Feeds o s ((.otable, btx) :: entriesToks es ++ (ty, tx) :: ts)) :
+    ∃ s' r, parseValue o fuel s acceptAll w = .ok (.tbl (denoteEntries o.dia o.normKey es []), s') { w with log := r :: w.log }
+      ∧ r.code = CIF_MISSING_DELIM ∧ Feeds o s' ((ty, tx) :: ts) := by
+  obtain ⟨f, rfl⟩ : ∃ f, fuel = f + 1 := ⟨fuel - 1, by omega⟩
+  simp only [List.cons_append] at hF
+  obtain ⟨t, s1, hty, _, hn, _, hr⟩ := hF.inv
+  obtain ⟨s2, r, h1, hc, h2⟩ := entries_open o es ty tx ts (consume s1) f w [] hw (by omega) hterm hr
+  refine ⟨s2, r, ?_, hc, h2⟩
+  rw [parseValue]
+  simp only [bind_eq, pure_eq, P.bind, P.pure, hn, hty, h1]
+
+end CifModel.Model.Parser
+
+namespace CifModel.Model.Parser
+open CifModel CifModel.Model CifModel.Model.Lexer CifModel.Spec.Grammar CifModel.Spec.Lexical
+open CifModel.Gen.ErrCodes
+
+/-- what stands behind the defective item begins with a token that cannot continue a value -/
+theorem next_is_terminator (post : List Item) (rest : List TokSpec)
+    (h : post ≠ [] ∨ ∃ ty tx ts, rest = (ty, tx) :: ts ∧ isTerminator ty = true) :
+    ∃ ty tx ts, itemsToks post ++ rest = (ty, tx) :: ts ∧ isTerminator ty = true := by
+  cases post with
+  | nil =>
+    rcases h with h | h
+    · exact absurd rfl h
+    · simpa [itemsToks] using h
+  | cons i r =>
+    obtain ⟨ty, tx, ts, h, ht⟩ := itemToks_head i
+    exact ⟨ty, tx, ts ++ (itemsToks r ++ rest), by simp [itemsToks, h], ht⟩
+
+/-- **unterminated list**: `_n [ v₁ … vₖ` followed by something that cannot continue the list -/
+theorem missing_delim_list_run (o : Opts) {path : Path} {put : Container → Cif} {code : Str} (hv : View o path put code)
+    (pre post : List Item) (n : Str) (btx : Str) (vs : List Val) (seen seen2 : List Str) (rest : List TokSpec) (s : PS) (fuel : Nat)
+    (w : W) (fs : List Container) (ls : List Loop) (isBlock : Bool) (hcif : w.cif = put (.mk code fs ls))
+    (hpre : wfItems o pre seen = true) (hseen : ∀ k ∈ normNames o ls, k ∈ seen)
+    (hname : wfName n = true) (hfresh : o.norm n ∉ normNames o (denoteItems o.dia o.normKey pre ls))
+    (hwv : wfVals o vs = true) (hpost : wfItems o post seen2 = true)
+    (hseen2 : ∀ k ∈ normNames o (denoteItems o.dia o.normKey (pre ++ [.item n (.lst vs)]) ls), k ∈ seen2)
+    (hfuel : szItems pre + szItems post + (szVals vs + 2) + 1 ≤ fuel)
+    (hpostne : post ≠ [] ∨ ∃ ty tx ts, rest = (ty, tx) :: ts ∧ isTerminator ty = true)
+    (hrest : lastIsLoop post = true → ∃ ty tx ts, rest = (ty, tx) :: ts ∧ isTerminator ty = true)
+    (hF : Feeds o s (itemsToks pre ++ (((.name, n) :: (.olist, btx) :: valsToks vs) ++ (itemsToks post ++ rest)))) :
+    ∃ s' r, elemsLoop o (fuel + post.length + 1 + pre.length) s (some path) isBlock acceptAll w
+        = elemsLoop o fuel s' (some path) isBlock acceptAll
+            { log := r :: w.log, cif := put (.mk code fs (denoteItems o.dia o.normKey (pre ++ [.item n (.lst vs)] ++ post) ls)) }
+      ∧ r.code = CIF_MISSING_DELIM ∧ Feeds o s' rest := by
+  obtain ⟨ty, tx, ts, hnx, hterm⟩ := next_is_terminator post rest hpostne
+  have := item_defect_run o hv pre post n .olist btx (valsToks vs) (.lst (denoteVals o.dia o.normKey vs)) CIF_MISSING_DELIM
+    (szVals vs + 2) seen seen2 rest s fuel w fs ls isBlock hcif hpre hseen hname hfresh rfl rfl
+    (by
+      intro f s1 w1 hf hF1
+      rw [hnx] at hF1 ⊢
+      exact open_list_value o vs btx ty tx ts s1 f w1 hwv hf hterm hF1)
+    hpost (by simpa [denoteItems_append, denoteItems, denoteVal] using hseen2) hfuel hrest hF
+  simpa [denoteItems_append, denoteItems, denoteVal] using this
+
+/-- **unterminated table**: `_n { k₁:v₁ … kₖ:vₖ` followed by something that cannot continue the table -/
+theorem missing_delim_table_run (o : Opts) {path : Path} {put : Container → Cif} {code : Str} (hv : View o path put code)
+    (pre post : List Item) (n : Str) (btx : Str) (es : List (Str × Presentation × Val)) (seen seen2 : List Str) (rest : List TokSpec)
+    (s : PS) (fuel : Nat) (w : W) (fs : List Container) (ls : List Loop) (isBlock : Bool) (hcif : w.cif = put (.mk code fs ls))
+    (hpre : wfItems o pre seen = true) (hseen : ∀ k ∈ normNames o ls, k ∈ seen)
+    (hname : wfName n = true) (hfresh : o.norm n ∉ normNames o (denoteItems o.dia o.normKey pre ls))
+    (hwv : wfEntries o es = true) (hpost : wfItems o post seen2 = true)
+    (hseen2 : ∀ k ∈ normNames o (denoteItems o.dia o.normKey (pre ++ [.item n (.tbl es)]) ls), k ∈ seen2)
+    (hfuel : szItems pre + szItems post + (szEntries es + 2) + 1 ≤ fuel)
+    (hpostne : post ≠ [] ∨ ∃ ty tx ts, rest = (ty, tx) :: ts ∧ isTerminator ty = true)
+    (hrest : lastIsLoop post = true → ∃ ty tx ts, rest = (ty, tx) :: ts ∧ isTerminator ty = true)
+    (hF : Feeds o s (itemsToks pre ++ (((.name, n) :: (.otable, btx) :: entriesToks es) ++ (itemsToks post ++ rest)))) :
+    ∃ s' r, elemsLoop o (fuel + post.length + 1 + pre.length) s (some path) isBlock acceptAll w
+        = elemsLoop o fuel s' (some path) isBlock acceptAll
+            { log := r :: w.log, cif := put (.mk code fs (denoteItems o.dia o.normKey (pre ++ [.item n (.tbl es)] ++ post) ls)) }
+      ∧ r.code = CIF_MISSING_DELIM ∧ Feeds o s' rest := by
+  obtain ⟨ty, tx, ts, hnx, hterm⟩ := next_is_terminator post rest hpostne
+  have := item_defect_run o hv pre post n .otable btx (entriesToks es) (.tbl (denoteEntries o.dia o.normKey es [])) CIF_MISSING_DELIM
+    (szEntries es + 2) seen seen2 rest s fuel w fs ls isBlock hcif hpre hseen hname hfresh rfl rfl
+    (by
+      intro f s1 w1 hf hF1
+      rw [hnx] at hF1 ⊢
+      exact open_table_value o es btx ty tx ts s1 f w1 hwv hf hterm hF1)
+    hpost (by simpa [denoteItems_append, denoteItems, denoteVal] using hseen2) hfuel hrest hF
+  simpa [denoteItems_append, denoteItems, denoteVal] using this
+
+end CifModel.Model.Parser
